@@ -130,6 +130,35 @@ Proof.
 Qed.
 Print Assumptions C03_order_independent.
 
+(* CAS-retried rebuild: a GetUser whose lazy rebuild (read, rebuild, compare-and-swap) is interrupted by an admin
+   edit of the same user between its read and its write returns AND persists exactly what "edit, then load" does
+   -- in EVERY state, for EVERY edit (in particular edits that empty the admin channels or admin roles): the
+   callback is re-run on the new document, nothing of the document read first survives *)
+Theorem C03_load_race_equals_sequential : forall st u c r ur0,
+  users st u = Some ur0 -> user_needs_rebuild ur0 = true ->
+  step st (LoadUserRace u c r) = step (fst (step st (SetUser u c r))) (LoadUser u).
+Proof. intros st u c r ur0 E H. exact (load_user_race_eq st u c r ur0 E H). Qed.
+Print Assumptions C03_load_race_equals_sequential.
+
+Theorem C03_role_load_race_equals_sequential : forall st r c rr0,
+  roles st r = Some rr0 -> role_needs_rebuild rr0 = true ->
+  step st (LoadRoleRace r c) = step (fst (step st (SetRole r c))) (LoadRole r).
+Proof. intros st r c rr0 E H. exact (load_role_race_eq st r c rr0 E H). Qed.
+Print Assumptions C03_role_load_race_equals_sequential.
+
+(* every raced load is one of the two sequential orders (when nothing has to be rebuilt there is no write: the
+   load answers from the document read before the edit, and the edit lands) *)
+Theorem C03_load_race_linearizable : forall st u c r,
+  step st (LoadUserRace u c r) = step (fst (step st (SetUser u c r))) (LoadUser u) \/
+  step st (LoadUserRace u c r) = (fst (step (fst (step st (LoadUser u))) (SetUser u c r)), snd (step st (LoadUser u))).
+Proof.
+  intros st u c r. cbn [step]. destruct (users st u) as [ur0|] eqn:E0.
+  - destruct (user_needs_rebuild ur0) eqn:Hn; [left; exact (load_user_race_eq st u c r ur0 E0 Hn)|].
+    right. unfold load_user_race. rewrite E0, Hn. reflexivity.
+  - right. unfold load_user_race, load_user, rebuild_user. rewrite E0. reflexivity.
+Qed.
+Print Assumptions C03_load_race_linearizable.
+
 (* non-vacuity: a history without purge in which a user created AFTER the granting document gets a channel
    directly and one through a granted role, and loses both when the document is tombstoned *)
 Example C03_nonvacuous :
